@@ -703,7 +703,10 @@ class World:
 
         def send_frame(frame):
             r = orig_send(frame)          # logged only if the frame really entered the queue (put_nowait is synchronous)
-            w.observe_enq(cell['ep'], frame, 0)
+            q = getattr(getattr(sock, '_send_queue', None), '_queue', None)
+            if q is None or (len(q) and q[-1] is frame):
+                w.observe_enq(cell['ep'], frame, 0)
+            # else: the endpoint keeps the frame back for now (it is logged when it enters the send queue)
             return r
 
         def send_priority_frame(frame):
